@@ -244,4 +244,52 @@ def ElOpsOK (e : Edges α) : List (ElOp α κ) → Prop
   | .fill g c _ :: r => (GuessesOK g ∧ ∃ xs, Proper e c xs) ∧ ElOpsOK e r
   | .reset :: r => ElOpsOK e r
 
+/-! ## guesses per axis, in the weakest form (review finding 2)
+
+`GuessesOK` asks every per-axis guess function to be in range at *every* pair `lo ≤ hi`; the
+interpolation the code computes is in range only at the states a search consults (`GuessOKAt`).
+The `…At` predicates below ask exactly that, per axis, for the coordinate being searched. -/
+
+section GuessAt
+variable [LT α]
+
+/-- along every axis `k` the guess function `g k` is in range wherever the search for `xs[k]` in
+`axes[k]` consults it -/
+def GuessesOKAt (axes : List (List α)) (xs : List α) (g : Nat → Nat → Nat → Int) : Prop :=
+  ∀ (k : Nat) (h₁ : k < axes.length) (h₂ : k < xs.length), GuessOKAt axes[k] xs[k] (g k)
+
+/-- executable `GuessesOKAt` (`guessesOKAtB_iff`) -/
+def guessesOKAtB [DecidableLT α] (axes : List (List α)) (xs : List α) (g : Nat → Nat → Nat → Int) : Bool :=
+  (List.range (min axes.length xs.length)).all fun k =>
+    match axes[k]?, xs[k]? with
+    | some arr, some x => guessOKAtB arr x (g k)
+    | _, _ => true
+
+/-- every operation has a coordinate of the right form and guesses that are in range where its
+searches consult them -/
+def OpsOKAt (e : Edges α) (ops : List ((Nat → Nat → Nat → Int) × Coord α × β)) : Prop :=
+  ∀ op ∈ ops, ∃ xs, Proper e op.2.1 xs ∧ GuessesOKAt e.axes xs op.1
+
+/-- the same for a history of an element -/
+def ElOpsOKAt (e : Edges α) : List (ElOp α κ) → Prop
+  | [] => True
+  | .fill g c _ :: r => (∃ xs, Proper e c xs ∧ GuessesOKAt e.axes xs g) ∧ ElOpsOKAt e r
+  | .reset :: r => ElOpsOKAt e r
+
+/-- every fill of the history has a coordinate of the right form (nothing is asked of the guesses) -/
+def ElOpsProper (e : Edges α) : List (ElOp α κ) → Prop
+  | [] => True
+  | .fill _ c _ :: r => (∃ xs, Proper e c xs) ∧ ElOpsProper e r
+  | .reset :: r => ElOpsProper e r
+
+end GuessAt
+
+/-- the exact integer interpolation along axis `k` of a mesh, for the point `xs` -/
+def interpGuessN (axes : List (List Int)) (xs : List Int) (k lo hi : Nat) : Int :=
+  interpGuess (axes[k]?.getD []) (xs[k]?.getD 0) lo hi
+
+/-- the rounded interpolation along axis `k` of a mesh, for the point `xs` -/
+def roundedGuessN (fl : Rat → Rat) (axes : List (List Rat)) (xs : List Rat) (k lo hi : Nat) : Int :=
+  roundedGuessArr fl (axes[k]?.getD []) (xs[k]?.getD 0) lo hi
+
 end Lena.C06
